@@ -5,7 +5,29 @@ from checks import kvgen as G
 
 LEVEL = "proof"
 MODULE = "IwModel.Props.C01"
-THEOREMS = []
+THEOREMS = [
+    "IwModel.C01.spec_put_desc",
+    "IwModel.C01.spec_get_put_self",
+    "IwModel.C01.spec_get_put_other",
+    "IwModel.C01.spec_del_desc",
+    "IwModel.C01.spec_get_del_self",
+    "IwModel.C01.spec_get_del_other",
+    "IwModel.C01.spec_get_iff_mem",
+    "IwModel.C01.get_refines",
+    "IwModel.C01.put_refines",
+    "IwModel.C01.put_no_overwrite",
+    "IwModel.C01.del_refines",
+    "IwModel.C01.history_refines",
+    "IwModel.C01.history_refines_from",
+    "IwModel.C01.put_error_preserves_state",
+    "IwModel.C01.put_line_error_preserves_state",
+    "IwModel.C01.put_db_frame",
+    "IwModel.C01.del_db_frame",
+    "IwModel.C01.metaSet_db_frame",
+    "IwModel.C01.key_roundtrip_plain",
+    "IwModel.C01.key_roundtrip_vnum8",
+    "IwModel.C01.key_roundtrip_vnum4",
+]
 MANIFEST = dict(
     level="proof",
     text=("Lean 4 refinement theorems: the node-level model of iwkv (routing, add-to-upper, split at slot 17, node removal) "
